@@ -83,3 +83,14 @@ def build(ctx):
     ctx.guarded('listby', lambda: cells('listby', True))
     ctx.guarded('groupby', lambda: cells('groupby', False))
     ctx.trust('that listby / groupby apply the cell comprehension to the ids returned by _listby is checked on the AST (iteration source), not symbolically')
+
+    # ------------------------------------------------------------------ frame: operations that return a new object never alter their operands
+    def frame_section():
+        from pyvc import own
+        own.post_all(ctx, own.table_report(PROP), replay=frame_replay)
+    ctx.guarded('frame', frame_section)
+
+
+def frame_replay(d):
+    """replay description of a failed frame obligation: the native re-check looks at the receiver / operands before and after the call"""
+    return dict(kind='frame', name=d['name'], where=d['where'], detail=d['detail'][:300])
